@@ -114,6 +114,9 @@ BODIES = {
     "X": [["brk"]], "x-guarded": [E(":"), ["if", [[E("‹"), ["rec"]]]]], "1X2": [N(1), ["brk"], N(2)], "if-X": [N(1), ["if", [[["brk"]], [N(2)]]]],
     "if-x-else-X": [E("n"), ["if", [[["brk"]], [["brk"]]]]], "print-range": [N(3), E("ɾ"), E(",")], "print-lazy-keep": [N(2), E("ɾ"), E("…"), E("_")],
     "print-map": [N(3), ["map", [E("d")]], E("₴")], "print-fn": [["lam", None, [N(1)]], E(",")], "plain": [N(1), N(2), E("+")],
+    "elif-body-X": [N(0), ["if", [[N(1)], [N(1)], [["brk"]], [N(4)]]]], "elif-cond-X": [N(0), ["if", [[N(1)], [["brk"]], [N(7)]]]],
+    "elif-body-x": [N(0), ["if", [[N(1)], [N(1)], [["rec"]], [N(4)]]]], "second-elif-X": [N(0), ["if", [[N(1)], [N(0)], [N(2)], [N(1)], [["brk"]]]]],
+    "final-else-X": [N(0), ["if", [[N(1)], [N(0)], [N(2)], [["brk"]]]]],
     "nested-list-X": [["list", [[N(1), ["brk"]], [N(2)]]]], "mod-X": [N(1), ["mod", "v", [["brk"]]]],
 }
 WRAPS = {
